@@ -316,6 +316,11 @@ func (g *dgen) nonObject(what string) *spec.Attr {
 		if el.Type.Kind == spec.Object {
 			el = g.prim(LocBody)
 		}
+		if what == "payload" && el.Type.Kind == spec.User && g.d.Resolve(el.Type).Kind == spec.Object {
+			// a request body that is a map of a user type: the generated client refers to a constructor goa does
+			// not emit (undefined: NewMapString<T>RequestBody; C01 territory, by-product)
+			el = g.prim(LocBody)
+		}
 		a = &spec.Attr{Type: &spec.Type{Kind: spec.Map, Key: &spec.Attr{Type: &spec.Type{Kind: spec.String}}, Elem: el}}
 		g.feat(what + ":map")
 	}
